@@ -246,6 +246,10 @@ struct Env {
 }
 
 pub struct Gen<'a> {
+    /// `super()` calls written into the template being generated. A chain multiplies them
+    /// (each level's calls run once per call of the level below), and inside captures the
+    /// *size* multiplies too: at most two per template, never inside a loop.
+    supers_in_tpl: usize,
     pub rng: &'a Rng,
     pub cfg: GenCfg,
     pub world: World,
@@ -278,6 +282,7 @@ fn escape_str_lit(s: &str) -> String {
 impl<'a> Gen<'a> {
     pub fn new(rng: &'a Rng, cfg: GenCfg) -> Gen<'a> {
         Gen {
+            supers_in_tpl: 0,
             rng,
             cfg,
             world: World::default(),
@@ -1032,7 +1037,8 @@ impl<'a> Gen<'a> {
     fn print_stmt(&mut self, env: &Env) -> String {
         if let Some((_, has_anc)) = &env.cur_block {
             let p = if *has_anc { 4 } else { 40 };
-            if self.rng.chance(1, p) {
+            if env.mult == 1 && self.supers_in_tpl < 2 && self.rng.chance(1, p) {
+                self.supers_in_tpl += 1;
                 return self.var("super()");
             }
         }
@@ -1453,6 +1459,7 @@ impl<'a> Gen<'a> {
         self.cur_cost = 1;
         self.stmt_count = 0;
         self.dump_count = 0;
+        self.supers_in_tpl = 0;
         let extends = if i > 0 && self.rng.below(1000) < self.cfg.inheritance {
             // parents with at least one block are more interesting
             let with_blocks: Vec<usize> = (0..i).filter(|j| !self.world.info[*j].chain_blocks.is_empty()).collect();
@@ -1560,7 +1567,8 @@ impl<'a> Gen<'a> {
                 inner.cur_block = Some((b.clone(), true));
                 src.push_str(&self.tag(&format!("block {}", b)));
                 src.push_str(&self.body(&inner));
-                if self.rng.chance(1, 3) {
+                if self.supers_in_tpl < 2 && self.rng.chance(1, 3) {
+                    self.supers_in_tpl += 1;
                     src.push_str(&self.var("super()"));
                 }
                 src.push_str(&self.tag("endblock"));
@@ -1622,6 +1630,7 @@ impl<'a> Gen<'a> {
         self.cur_cost = 1;
         self.stmt_count = 0;
         self.dump_count = 0;
+        self.supers_in_tpl = 0;
         // a throwaway info entry so that include/callable see every template
         self.world.info.push(TplInfo { name: "__tera_one_off".into(), ..Default::default() });
         let env = Env { vars: vec![], ctx_visible: true, in_loop: false, can_break: false, blocks_allowed: false, cur_block: None, mult: 1, depth: 0, tpl: i, comp: None };
